@@ -24,7 +24,7 @@ impl Chunk {
 #[verifier::external_body] pub struct Map { _p: () }
 #[verifier::external_body] pub struct Var { _p: () }
 #[verifier::external_body] pub struct GetAttr { _p: () }
-#[verifier::external_body] pub struct GetItem { _p: () }
+
 #[verifier::external_body] pub struct Slice { _p: () }
 #[verifier::external_body] pub struct Test { _p: () }
 #[verifier::external_body] pub struct ComponentCall { _p: () }
@@ -56,6 +56,22 @@ pub fn vx_last_mut(v: &mut Vec<ProcessingBody>) -> (r: Option<&mut ProcessingBod
         old(v)@.len() > 0 ==> r is Some && *r->Some_0 == old(v)@.last() && final(v)@ == old(v)@.drop_last().push(*final(r->Some_0)),
         old(v)@.len() == 0 ==> r is None && final(v)@ == old(v)@,
 { unimplemented!() }
+impl<T> Spanned<T> {
+    /// the node a span is attached to
+    #[verifier::external_body]
+    pub fn node(&self) -> &T { unimplemented!() }
+}
+impl Value {
+    #[verifier::external_body]
+    pub fn as_str(&self) -> Option<&str> { unimplemented!() }
+}
+#[verifier::external_body]
+pub fn vx_str_to_string(s: &str) -> (r: String) ensures r@ == s@ { unimplemented!() }
+pub uninterp spec fn item_optional(e: Spanned<GetItem>) -> bool;
+impl Spanned<GetItem> {
+    #[verifier::external_body]
+    pub fn into_parts(self) -> (r: (GetItem, Span)) ensures r.0.optional == item_optional(self) { unimplemented!() }
+}
 impl Spanned<Ternary> {
     #[verifier::external_body]
     pub fn into_parts(self) -> (Ternary, Span) { unimplemented!() }
